@@ -204,8 +204,8 @@ C08Image(H, E, c, S) ==
 \* --------------------------------------------------------------------- C15
 C15Image(H, E, c, S) ==
   IF S.openql.status = "none" THEN {}
-  ELSE IF S.openql.status = "duplicate-kernel" THEN {Fail("C15.duplicate_kernel", c, "export refused: duplicate kernel name")}
-  ELSE IF S.openql.status # "ok" THEN {Fail("C15.export_error", c, S.openql.status)}
+  ELSE IF S.openql.status # "ok" /\ S.openql.status # "duplicate-kernel" THEN {Fail("C15.export_error", c, S.openql.status)}
+  ELSE IF S.openql.status = "duplicate-kernel" /\ S.openql.flat = <<>> THEN {Fail("C15.duplicate_kernel", c, "export refused: duplicate kernel name")}
   ELSE LET \* what the statement leaves open is normalised away on both sides: "a barrier on its pair" names a set of qubits, and
            \* "a phase update on both qubits" does not say which of the two comes first
            QLess(a, b) == a[2] < b[2]
@@ -218,7 +218,10 @@ C15Image(H, E, c, S) ==
                         ELSE Append(P, x)
              IN F[Len(s)]
            want == NormQ(OpenQLImage(H, E, S, c))  got == NormQ(S.openql.flat)  dev == NormQ(DevSubFirst(H, E, S, c)) IN
-       When(got = want,
+       \* a refused export (duplicate kernel name, named deviation S8b) is still judged by the instruction stream the exporter
+       \* hands over when nothing refuses it
+       (IF S.openql.status = "duplicate-kernel" THEN {Fail("C15.duplicate_kernel", c, "export refused: duplicate kernel name")} ELSE {})
+       \cup When(got = want,
             Fail(IF got = dev THEN "C15.image.subprograms_first" ELSE "C15.image", c,
                  <<"exported", Len(got), "expected", Len(want)>>))
        \cup When(S.openql.same_twice, Fail("C15.names", c, "two exports of the same circuit differ"))
